@@ -1,0 +1,35 @@
+//go:build verif
+
+package mq
+
+import "io"
+
+// Exported wrappers around the unexported variable byte integer
+// codec. Only compiled with the build tag verif; used by the
+// verification harness to enumerate all values without building
+// frames around them.
+
+// VerifVBIEncode returns the wire form of v.
+func VerifVBIEncode(v uint) []byte {
+	x := vbint(v)
+	b := make([]byte, x.width())
+	x.fill(b, 0)
+	return b
+}
+
+// VerifVBIDecode decodes from memory; width is the number of bytes
+// the decoder advances by.
+func VerifVBIDecode(data []byte) (value uint, width int, err error) {
+	var x vbint
+	if err := x.UnmarshalBinary(data); err != nil {
+		return 0, 0, err
+	}
+	return uint(x), x.width(), nil
+}
+
+// VerifVBIRead decodes from a stream; n is the number of bytes read.
+func VerifVBIRead(r io.Reader) (value uint, n int64, err error) {
+	var x vbint
+	n, err = x.ReadFrom(r)
+	return uint(x), n, err
+}
